@@ -32,9 +32,13 @@ LEVEL_TEXT = ("disabled_never_deletes / disabled_bucket_untouched / not_enabled_
               "tahoe.cfg -> crawler configuration step (defaults, required keys, share-type switches) is modelled and proved "
               "(sharetype_switches_select_types, cutoff_and_override_reach_the_crawler). The model is tied to expirer.py / client.py "
               "by running the real crawler on real immutable and mutable share files, built through the production configuration path.")
-LEVEL_NOTE = ("Hypothesis 'leases non-empty and cancel secrets distinct within a share' excludes exactly the three open findings. "
+LEVEL_NOTE = ("Schedule level: expired_share_deleted_within_one_cycle / valid_share_survives_every_schedule / "
+              "disabled_never_deletes_any_schedule are proved on the composed machine GcCycle.gcRun (crawler schedule with slices, "
+              "kills, restarts driving the expirer on the share files), tied by the gcrun driver command against a real "
+              "LeaseCheckingCrawler run slice by slice. " +
+              "Hypothesis 'leases non-empty and cancel secrets distinct within a share' excludes exactly the three open findings. "
               "'Deleted within one crawl cycle' is the composition of bucket_pass_deletes_exactly_expired with C27 "
-              "(covers_at_least_once); the glue (process_bucket override) is exercised by whole-cycle runs, not a theorem.")
+              "(covers_at_least_once), now proved as one theorem on GcCycle.gcRun.")
 RULE = ("a case is one share file (type, 0..5 leases with renewal times placed at/around the configured threshold) processed by "
         "the real LeaseCheckingCrawler under one policy configuration and a patched clock; distinct = distinct "
         "(config, now - renewal offsets, cancel-secret pattern, share type); non-trivial = the share has at least one lease")
@@ -687,7 +691,8 @@ def corpus():
     # loop and keep the share; all-expired shares in the same orders must go.  V = renewed now, E = 400 days ago.
     for base in (dict(cut, cutoff=MID - 40 * DAY), dict(ov31, prod=True)):
         for ty in ("i", "m"):
-            for pat in ("VEEE", "EVEEE", "VEVE", "EEVE", "EEEE", "VEEEE"):
+            # 5 and more leases: on a mutable share the 5th.. live in the extra-lease area (seeded/C26-e)
+            for pat in ("VEEE", "EVEEE", "VEVE", "EEVE", "EEEE", "VEEEE", "EEEEV", "EVEEV", "EEEEE", "EEEEEV", "EVEEEE"):
                 leases = [(k + 1, now if ch == "V" else now - 400 * DAY - k, k + 1) for k, ch in enumerate(pat)]
                 res.append((base, now, [{"ty": ty, "leases": leases}], False))
     res.append((dict(cut, enabled=False), now, [{"ty": "i", "leases": [(1, now - 400 * DAY, 1)]}], True))
@@ -730,6 +735,245 @@ def cycle_corpus():
         buckets.append([{"ty": "i", "leases": [(1, cutoff - 300 * DAY, 1), (2, cutoff + 3 * 3600, 2)]},
                         {"ty": "m", "leases": [(3, cutoff - 300 * DAY, 3), (4, cutoff - 5 * 3600, 4)]}])
         res.append((cfg, T0, buckets))
+    return res
+
+
+# ------------------------------------------------------------------ (C) the crawler driving the expirer over schedules
+
+def make_gc_class():
+    from allmydata.storage.expirer import LeaseCheckingCrawler
+    from props.c27 import Killed
+
+    class GcCrawler(LeaseCheckingCrawler):
+        """The real LeaseCheckingCrawler with the C27 scripting hooks (time checks, kills)."""
+        cpu_slice = 1.0
+
+        def __init__(self, script, *a):
+            self.script = script
+            LeaseCheckingCrawler.__init__(self, *a)
+
+        def process_bucket(self, cycle, prefix, prefixdir, storage_index_b32):
+            sc = self.script
+            if sc.kill_after is not None and sc.calls >= sc.kill_after:
+                raise Killed()
+            LeaseCheckingCrawler.process_bucket(self, cycle, prefix, prefixdir, storage_index_b32)
+            sc.slice_log.append((cycle, prefix, storage_index_b32))
+            sc.calls += 1
+            sc.checkpoint()
+
+        def finished_prefix(self, cycle, prefix):
+            self.script.checkpoint()
+
+        def save_state(self):
+            if self.script.kill_after is not None:
+                raise Killed()
+            LeaseCheckingCrawler.save_state(self)
+
+    return GcCrawler
+
+
+def run_gc_schedule(ctx, env, sched):
+    """sched = {"kind": "gc", "cfg": cfg, "buckets": [{"same": bool, "shares": [share]}], "events": [event]},
+    event = {"k": "s"|"k"|"r", "now": int, "o": [check indices], "kill": K}.
+    Real share files, a real LeaseCheckingCrawler driven slice by slice; compared with the model's gcRun after every
+    event (process_bucket log, state file, every share file and its leases)."""
+    from allmydata.storage.common import storage_index_to_dir, si_b2a
+    from props import c27
+    cfg = sched["cfg"]
+    ss = env.new_server(cfg)
+    crawler_mod = env.mods[2]
+    script = c27.Script(c27.FakeTime())
+    if not hasattr(env, "gc_cls"):
+        env.gc_cls = make_gc_class()
+    statefile = os.path.join(ss.storedir, "gc.state")
+    histfile = os.path.join(ss.storedir, "gc.history")
+    types = tuple(t for t, on in (("immutable", cfg["imm"]), ("mutable", cfg["mut"])) if on)
+
+    def new_crawler():
+        return env.gc_cls(script, ss, statefile, histfile, cfg["enabled"], cfg["mode"], cfg["override"], cfg["cutoff"], types)
+
+    binfo = []
+    for bi, bk in enumerate(sched["buckets"]):
+        si = hashlib.sha256(b"gc-%d-%d" % (env.n, bi)).digest()[:16]
+        if bk["same"]:
+            si = bytes([0x5a, 0x40 | (si[1] & 0x3f)]) + si[2:]
+        paths = {k: make_share(ss, si, k, sh["ty"], sh["leases"], False) for k, sh in enumerate(bk["shares"])}
+        binfo.append((si_b2a(si).decode(), os.path.join(ss.sharedir, storage_index_to_dir(si)), bk["shares"], paths))
+    binfo.sort()
+    names = [b[0] for b in binfo]
+    rank = {n: i for i, n in enumerate(names)}
+    saved_time = crawler_mod.time
+    crawler_mod.time = script.ft
+    try:
+        c = new_crawler()
+        prefixes = c.prefixes
+        pidx = {p: i for i, p in enumerate(prefixes)}
+
+        def share_tok(k, sh, leases):
+            return "%d.%s.%s" % (k, sh["ty"], "_".join("%d@%d" % x for x in leases) or "-")
+
+        world = ";".join("%d=%s" % (rank[n], "|".join(share_tok(k, sh, [(cid, r + 31 * DAY) for (cid, r, _) in sh["leases"]])
+                                                        for k, sh in enumerate(shares)))
+                         for (n, _, shares, _) in binfo) or "-"
+        by_prefix = {}
+        for n in names:
+            by_prefix.setdefault(n[:2], [])
+        for p in by_prefix:
+            by_prefix[p] = crawler_mod.os.listdir(os.path.join(ss.sharedir, p))
+        listing = ",".join("%d:%s" % (pidx[p], ".".join(str(rank[n]) for n in by_prefix[p]))
+                           for p in sorted(by_prefix, key=lambda p: pidx[p])) or "-"
+        outs, toks = [], []
+        aborted = None          # an exception other than the scripted kill left start_slice
+        abort_tb = []
+        disturbed = False       # a kill / restart happened while a cycle was in progress
+        for ev in sched["events"]:
+            env.ft.now = ev["now"]
+            stb = c27.read_state(statefile, rank, prefixes)[1]
+            in_cycle = stb is not None and stb["current-cycle"] is not None
+            oracle = ",".join(str(i) for i in sorted(set(ev.get("o", [])))) or "-"
+            exc = ""
+            if ev["k"] == "r":
+                c = new_crawler()
+                toks.append("%d~r" % ev["now"])
+                script.slice_log = []
+                disturbed = disturbed or in_cycle
+            elif ev["k"] == "s":
+                script.arm(set(ev["o"]), None, 0)
+                try:
+                    c.start_slice()
+                except Exception as e:   # noqa - the real node would log it and never schedule this crawler again
+                    import traceback
+                    abort_tb = [l.strip().replace("\n", " ") for l in traceback.format_exc().split("  File")]
+                    exc = "EXC:%s " % type(e).__name__
+                    aborted = aborted or type(e).__name__
+                toks.append("%d~s/%s/%s" % (ev["now"], oracle, listing))
+            else:
+                script.arm(set(ev["o"]), ev["kill"], 0)
+                disturbed = True
+                try:
+                    c.start_slice()
+                    raise AssertionError("scripted kill did not happen")
+                except c27.Killed:
+                    pass
+                except AssertionError:
+                    raise
+                except Exception as e:   # noqa
+                    import traceback
+                    abort_tb = [l.strip().replace("\n", " ") for l in traceback.format_exc().split("  File")]
+                    exc = "EXC:%s " % type(e).__name__
+                    aborted = aborted or type(e).__name__
+                script.kill_after = None
+                c = new_crawler()
+                toks.append("%d~k%d/%s/%s" % (ev["now"], ev["kill"], oracle, listing))
+            lg = ",".join("%d.%d.%d" % (cy, pidx[p], rank[b]) for (cy, p, b) in script.slice_log) or "-"
+            st = c27.read_state(statefile, rank, prefixes)[0]
+            dump = []
+            for (n, bdir, shares, paths) in binfo:
+                per = []
+                for k, sh in enumerate(shares):
+                    if os.path.exists(paths[k]):
+                        per.append(share_tok(k, sh, read_leases(paths[k], sh["leases"])))
+                dump.append("%d=%s" % (rank[n], "|".join(per)))
+            if exc:
+                # From here on the real node has no lease crawler any more (the exception left start_slice: no save_state, no
+                # next timer).  The monitor below reports it; the schedule up to the abort is what is compared with the
+                # model, which describes a crawler that keeps running.
+                toks.pop()
+                ctx.count("gc-schedules-cut-at-abort")
+                break
+            outs.append("%s/%s#%s" % (lg, st, ";".join(dump) or "-"))
+            ctx.case(("gc", cfg_key(cfg), ev["k"], oracle, ev.get("kill"), st) if (script.slice_log or ev["k"] != "s") else None)
+            ctx.count("gc-event:" + ev["k"])
+        # the statement, over the whole schedule: shares with a lease that is valid throughout must still be there; all-expired
+        # shares of an enabled type must be gone once a cycle has been completed
+        if aborted and len(ctx.notes) < 4:
+            ctx.note("crawler aborted: " + " | ".join(abort_tb[-3:]))
+        if aborted:
+            # every share here is well-formed: nothing may throw the crawler off; a dead crawler collects nothing any more
+            ctx.violation("an exception left the lease crawler's slice (the node never runs this crawler again): expired shares are "
+                          "no longer collected in this or any later cycle", sched,
+                          "crawler-aborted:%s%s" % ("lease-age-histogram" if any("histogram" in l for l in abort_tb) else aborted,
+                                                    ":after-restart-inside-a-cycle" if disturbed else ""))
+        nows = [ev["now"] for ev in sched["events"]]
+        fin = c27.read_state(statefile, rank, prefixes)[1]
+        cycle_done = fin is not None and fin["last-cycle-finished"] is not None
+        for (n, bdir, shares, paths) in binfo:
+            for k, sh in enumerate(shares):
+                exists = os.path.exists(paths[k])
+                en = cfg["enabled"] and type_enabled(cfg, sh["ty"])
+                always_exp = all(doc_expired(cfg, t, r) for (_, r, _) in sh["leases"] for t in nows)
+                some_valid = any(all(not doc_expired(cfg, t, r) for t in nows) for (_, r, _) in sh["leases"])
+                if not exists and (not en or some_valid):
+                    ctx.violation("share deleted during a schedule although its type is not enabled or a lease stayed valid",
+                                  sched, "schedule:deleted-with-valid-lease")
+                if exists and en and always_exp and cycle_done and sh["leases"]:
+                    ctx.violation("all-expired share of an enabled type survived a completed crawl cycle", sched,
+                                  "schedule:expired-share-kept-after-full-cycle")
+        ctx.count("gc-schedules")
+    finally:
+        crawler_mod.time = saved_time
+    shutil.rmtree(ss.storedir, ignore_errors=True)
+    return " || ".join(outs), "gcrun %s %d %s %s" % (cfg_tokens(cfg), len(prefixes), world, " ".join(toks))
+
+
+def gen_gc_schedule(rng, fixed=None):
+    from props import c27
+    cfg = gen_cfg(rng) if fixed is None else fixed
+    cfg = dict(cfg, prod=False)
+    now = T0
+    nb = rng.choice([2, 3, 4, 6])
+    buckets = []
+    for b in range(nb):
+        shares = []
+        for k in range(rng.choice([1, 1, 2])):
+            sh = gen_share(rng, cfg, now, 100 * b + 10 * k + 1, 0.0)
+            if not sh["leases"]:
+                sh["leases"] = [(100 * b + 10 * k + 1, now - 400 * DAY, 100 * b + 10 * k + 1)]
+            shares.append(sh)
+        buckets.append({"same": rng.random() < 0.6, "shares": shares})
+    evs = []
+    t = now
+    for _ in range(rng.choice([3, 4, 6, 8])):
+        t += rng.choice([0, 1, 3600, DAY])
+        r = rng.random()
+        o = [rng.randrange(0, nb + 4) for _ in range(rng.choice([0, 1, 1, 2]))]
+        if rng.random() < 0.3:
+            o.append(rng.randrange(0, 1024 + nb))
+        if r < 0.1:
+            evs.append({"k": "r", "now": t})
+        elif r < 0.3:
+            evs.append({"k": "k", "now": t, "o": o, "kill": rng.randrange(0, nb + 1)})
+        else:
+            evs.append({"k": "s", "now": t, "o": o})
+    evs.append({"k": "s", "now": t, "o": []})
+    evs.append({"k": "s", "now": t, "o": []})
+    return {"kind": "gc", "cfg": cfg, "buckets": buckets, "events": evs}
+
+
+def gc_corpus():
+    cut = {"enabled": True, "imm": True, "mut": True, "mode": "cutoff-date", "override": None, "cutoff": MID - 40 * DAY,
+           "prod": False}
+    old, new = T0 - 400 * DAY, T0
+
+    def bk(same, *shares):
+        return {"same": same, "shares": [{"ty": ty, "leases": [(10 * i + j + 1, r, 10 * i + j + 1) for j, r in enumerate(rs)]}
+                                         for i, (ty, rs) in enumerate(shares)]}
+    buckets = [bk(True, ("i", [old])), bk(True, ("m", [old, new]), ("m", [old])), bk(True, ("i", [old, old - 5])),
+               bk(False, ("m", [new])), bk(False, ("i", [old]))]
+    res = []
+    # interruption after the first bucket, a slice killed after one more call, then to the end of the cycle and a second cycle
+    res.append({"kind": "gc", "cfg": cut, "buckets": buckets, "events": [
+        {"k": "s", "now": T0, "o": [0]}, {"k": "k", "now": T0 + 10, "o": [], "kill": 1}, {"k": "s", "now": T0 + 20, "o": [1]},
+        {"k": "r", "now": T0 + 30}, {"k": "s", "now": T0 + 40, "o": []}, {"k": "s", "now": T0 + 50, "o": []}]})
+    res.append({"kind": "gc", "cfg": dict(cut, enabled=False), "buckets": buckets, "events": [
+        {"k": "s", "now": T0, "o": [1]}, {"k": "s", "now": T0 + 20, "o": []}]})
+    res.append({"kind": "gc", "cfg": dict(cut, mut=False), "buckets": buckets, "events": [
+        {"k": "k", "now": T0, "o": [], "kill": 2}, {"k": "s", "now": T0 + 20, "o": [2]}, {"k": "s", "now": T0 + 20, "o": []}]})
+    age = {"enabled": True, "imm": True, "mut": True, "mode": "age", "override": None, "cutoff": None, "prod": False}
+    # age mode: a lease that expires between two slices of the same cycle
+    b2 = [bk(True, ("i", [T0 - 31 * DAY + 5])), bk(True, ("m", [T0 - 31 * DAY + 5, T0])), bk(True, ("i", [old]))]
+    res.append({"kind": "gc", "cfg": age, "buckets": b2, "events": [
+        {"k": "s", "now": T0, "o": [0]}, {"k": "s", "now": T0 + 100, "o": []}, {"k": "s", "now": T0 + 200, "o": []}]})
     return res
 
 
@@ -805,6 +1049,11 @@ def _run(ctx, env):
     cases = []      # (cfg, now, shares, via_server)
     if ctx.replay:
         c = ctx.replay["case"]
+        if c.get("kind") == "gc":
+            c["buckets"] = [{"same": b["same"], "shares": [fix_share(x) for x in b["shares"]]} for b in c["buckets"]]
+            a, l = run_gc_schedule(ctx, env, c)
+            ctx.compare("lease crawler over a schedule", [c], [a], ctx.model([l]))
+            return
         if c.get("kind") == "cycle":
             impl, lines = run_cycle(ctx, env, c["cfg"], c["now"], [[fix_share(s) for s in b] for b in c["buckets"]],
                                     c.get("same_prefix", False), c.get("order"))
@@ -825,6 +1074,16 @@ def _run(ctx, env):
             cases.append((cfg, now, shares, via))
     if not ctx.replay:
         run_settings(ctx, env)
+        gcs = gc_corpus()
+        if not os.environ.get("VERIF_CORPUS_ONLY"):
+            gcs += [gen_gc_schedule(rng) for _ in range(ctx.budget(30, 600))]
+        gi, gl = [], []
+        for g in gcs:
+            a, l = run_gc_schedule(ctx, env, g)
+            gi.append(a)
+            gl.append(l)
+        ctx.compare("lease crawler over a schedule (slices, kills, restarts): process_bucket log, state file, every share file",
+                    gcs, gi, ctx.model(gl))
     impl, lines = [], []
     for i, (cfg, now, shares, via) in enumerate(cases):
         a, l = run_bucket(ctx, env, cfg, now, shares, via, i)
